@@ -177,10 +177,20 @@ def gen_hint(rng):
         if lit.tok in ("X",) or lit.sql in ("default", "off", "-3", "utf8", "ON"):  # sqlglot does not see SET_VAR(x=ON) as an assignment
             lit = Lit("7", "i7")
         assigns.append((name, lit))
+    plain = rng.random() < 0.2
+    if plain:
+        # the form MySQL documents for hinting several variables: one SET_VAR(...) item per variable in one comment
+        ints = [n for n, t in SYSTEM_VARIABLES.items() if t[0] is int and t[2]]
+        names = rng.sample(ints, rng.choice([2, 3, 4]))
+        assigns = [(n, Lit(str(v), "i%d" % v)) for n, v in zip(names, rng.sample(range(2, 90), len(names)))]
     form = rng.choice(["one-comment", "one-comment", "nested", "two-level"])
+    if plain:
+        form = "one-comment"
     if form == "two-level" and len(assigns) < 2:
         form = "one-comment"
     body = rng.choice(["read", "read", "app", "app-fail"])
+    if plain:
+        body = "read"
     if form in ("nested", "two-level"):
         body = rng.choice(["app", "app-fail"])
     # dict semantics of the middleware: Hint nodes are walked in reverse order of discovery (outer query first → the
@@ -199,9 +209,17 @@ def gen_hint(rng):
     model_assigns = ",".join("%s=%s" % (n, l.tok) for n, l in d.items()) or "-"
     hints = ["SET_VAR(%s=%s)" % (n, l.sql) for n, l in assigns]
     if body == "read":
-        target = rng.choice([a[0] for a in assigns] + [gen_name(rng)])
+        target = rng.choice([a[0] for a in assigns] + [gen_name(rng)]) if not plain else rng.choice([a[0] for a in assigns])
         sql = "SELECT /*+ %s */ @@%s" % (" ".join(hints), target)
-        return sql, "var hint %s get:%s" % (model_assigns, target), ("read", target)
+        # ground truth without the model: when every hint is a plain integer for a dynamic integer variable, the statement
+        # succeeds and reads, for a hinted variable, the last value the hints give it
+        import re as _re
+        simple = all(type_of(n) == "int" and SYSTEM_VARIABLES[n.lower()][2] and _re.fullmatch(r"i\d+", l.tok) for n, l in assigns)
+        expect = None
+        if simple and form == "one-comment":
+            vals = [l.tok[1:] for n, l in assigns if n.lower() == target.lower()]
+            expect = vals[-1] if vals else None
+        return sql, "var hint %s get:%s" % (model_assigns, target), ("read", target, expect)
     tbl = "boom" if body == "app-fail" else "t"
     if form == "nested":
         sql = "SELECT s.a FROM (SELECT /*+ %s */ a FROM %s) AS s" % (" ".join(hints), tbl)
@@ -322,6 +340,8 @@ def evaluate(chk, out, expect, prog, pidx):
             else:
                 view, outcome = m.split("|")
                 body = kind[0]
+                if body == "read" and len(kind) > 2 and kind[2] is not None and (status != "rs" or rows[0][0] != kind[2]):
+                    chk.fail("a SET_VAR hint does not apply to its own statement", d, dict(read=rows[0][0] if status == "rs" else status, hinted_value=kind[2]))
                 if body == "read":
                     got = status if status != "rs" else "ok"
                     if outcome != got:
